@@ -339,6 +339,10 @@ let () =
              let q = (((fl w.(1), fl w.(2)), fl w.(3)), fl w.(4)) in
              let ((r1, r2), r3) = rotation_matrix fops q in
              Printf.printf "%s %s %s\n" (p3 r1) (p3 r2) (p3 r3)
+           | "PDT" ->
+             let f i = fl w.(i) in
+             let v i = ((f i, f (i + 1)), f (i + 2)) in
+             Printf.printf "%s\n" (p3 (pd_cell fops (v 1) (v 4) (v 7) (v 10) (v 13)))
            | "PD" ->
              let hc = int_of_string w.(1) <> 0 in
              let f i = fl w.(i) in
